@@ -167,9 +167,9 @@ Lemma cell_setcell W b a x b' a' :
   cell (setcell W b a x) b' a' =
   if (b' =? b) && (b <? length (w_bufs W)) && (a' =? a) && (a <? length (nth b (w_bufs W) [])) then x else cell W b' a'.
 Proof.
-  unfold cell, setcell; cbn. rewrite nth_upd. destruct ((b' =? b) && (b <? length (w_bufs W))) eqn:E; cbn.
-  - rewrite nth_upd. apply andb_true_iff in E. destruct E as [E _]. apply Nat.eqb_eq in E. subst. bd; auto.
-  - reflexivity.
+  unfold cell, setcell; cbn [w_bufs]. rewrite nth_upd.
+  destruct ((b' =? b) && (b <? length (w_bufs W))) eqn:E; cbn [andb]; [|reflexivity].
+  apply andb_true_iff in E. destruct E as [E E']. apply Nat.eqb_eq in E. subst b'. rewrite nth_upd. reflexivity.
 Qed.
 
 (** write_through_view_changes_exactly, cell form: after h(i,j) = e, ANY handle w (same block or another, any chain of
